@@ -18,7 +18,7 @@ LEVEL = ("Generated-input exploration over tall / wide / duplicated-column / exa
          "both alpha types and regularisation methods, three scorers and three ways of specifying the folds: cv_values_, alpha_, "
          "best_score_, coef_ (bounded, directions below the numerical rank excluded) and predict are compared with the explicit "
          "computation; 1-D targets; a fixed set of generated cases runs with n_jobs=2 in the main process. No absence claim: strength = the counted distinct non-trivial cases in the evidence.")
-BUDGET = {"quick": 500, "thorough": 6000}
+BUDGET = {"quick": 500, "thorough": 15000}
 RULE = ("Cases: X 6..19 x 2..11 (thorough to 40 x 24) with column scales e^{N(0,s)}, s in {0,1,2}, kinds full / duplicated and summed "
         "columns / exactly rank-deficient products with integer factors, global scale 10^[-3,6]; 1..3 targets = X B/max|X| + noise; "
         "alphas: 1..5 sorted values, absolute 10^[-12,3] or relative {0,1e-9} u 10^[-9,-0.05]; methods tikhonov / cutoff; scorers "
